@@ -623,7 +623,9 @@ def sqrt_mono_axioms():
     """IEEE: the correctly rounded square root is monotone (non-NaN operands)."""
     x, y = z3.Consts('sm_x sm_y', Val)
     return [z3.ForAll([x, y], z3.Implies(z3.Not(vlt(y, x)), z3.Not(vlt(vsqrt(y), vsqrt(x)))),
-                      patterns=[z3.MultiPattern(vsqrt(x), vsqrt(y))])]
+                      patterns=[z3.MultiPattern(vsqrt(x), vsqrt(y))]),
+            # the square root of a finite value is finite
+            z3.ForAll([x], z3.Implies(vlt(x, vinf), vlt(vsqrt(x), vinf)), patterns=[vsqrt(x)])]
 
 
 THEORIES['sqrtmono'] = sqrt_mono_axioms
